@@ -134,11 +134,11 @@ Proof.
       * apply unquote_char_len in E.
         destruct (IH quote tail (b ++ encode_rune ch)
                      (remIdx + (length (c :: pt) - length tail))) as [p' [b' [r' [H1 [H2 H3]]]]].
-        { simpl in *. lia. }
-        exists p', b', r'. split; [exact H1 | split; [| exact H3]]. simpl in *. lia.
+        { cbn [length] in *. lia. }
+        exists p', b', r'. split; [exact H1 | split; [| exact H3]]. cbn [length] in *. lia.
       * destruct (IH quote pt (b ++ [92%N]) (S remIdx)) as [p' [b' [r' [H1 [H2 H3]]]]].
-        { simpl in *. lia. }
-        exists p', b', r'. split; [exact H1 | split; [| exact H3]]. simpl in *. lia.
+        { cbn [length] in *. lia. }
+        exists p', b', r'. split; [exact H1 | split; [| exact H3]]. cbn [length] in *. lia.
 Qed.
 
 (* unquotePrefix never panics, and on success the remaining query is strictly shorter *)
@@ -162,9 +162,9 @@ Proof.
     rewrite H1. cbn [rbind].
     destruct p' as [|c rest]; [left; reflexivity|].
     destruct (negb (N.eqb c quote)); [left; reflexivity|].
-    rewrite (slice_from_ok (S r') (quote :: q1)) by (simpl in *; lia).
+    rewrite (slice_from_ok (S r') (quote :: q1)) by (cbn [length] in *; lia).
     cbn [rbind]. right. eexists. eexists. split; [reflexivity|].
-    rewrite skipn_length. simpl in *. lia.
+    rewrite skipn_length. cbn [length] in *. lia.
 Qed.
 
 Lemma quoted_prefix_raw_ok : forall q,
@@ -244,8 +244,8 @@ Section LexTotal.
       rewrite (next_token_ok _ _ _ Hle). eexists. eexists. split; [reflexivity|].
       unfold next_post. rewrite skipn_length. split; [lia | split].
       - intros Hn. pose proof (decode_pos _ _ _ E0 Hn).
-        destruct q; [exfalso; apply Hn; reflexivity | simpl in *; lia].
-      - intros ->. reflexivity. }
+        destruct q; [exfalso; apply Hn; reflexivity | cbn [length] in *; lia].
+      - intros ->. simpl in Hle. assert (Hz : sz0 = 0) by lia. subst sz0. reflexivity. }
     assert (Hq : q <> []).
     { intros ->. rewrite decode_nil in E0. inversion E0; subst. discriminate. }
     destruct (skip_spaces_ok (S (length q)) q sp) as [q1 [sp1 [Hs Hl1]]]; [lia|].
@@ -315,7 +315,7 @@ Section LexTotal.
     intros _. destruct q1 as [|x q1'].
     - simpl. lia.
     - assert (Hp : 1 <= sz) by (apply (decode_pos _ _ _ E); discriminate).
-      simpl in *. lia.
+      cbn [length] in *. lia.
   Qed.
 
   Lemma lex_all_ok : forall f q, length q < f ->
@@ -327,7 +327,8 @@ Section LexTotal.
     rewrite Hn. cbn [rbind].
     destruct (is_end t q') eqn:Ee.
     - exists []. reflexivity.
-    - assert (Hq : q <> []) by (intros Hc; rewrite (H3 Hc) in Ee; discriminate).
+    - assert (Hq : q <> []).
+      { intros Hc. discriminate (H3 Hc). }
       destruct (IH q') as [ts Hts]; [specialize (H2 Hq); lia|].
       rewrite Hts. cbn [rbind]. eexists. reflexivity.
   Qed.
@@ -370,7 +371,7 @@ Section LexTotal.
       destruct (negb (is_comp t)); [left; reflexivity|].
       right. pose proof (join_composite_len r (t_txt t)) as H.
       destruct (join_composite is_letter is_digit r (t_txt t)) as [v ts'].
-      exists v, ts'. split; [reflexivity | simpl in *; lia].
+      exists v, ts'. split; [reflexivity | simpl in H; simpl; lia].
   Qed.
 
   Lemma kw_terms_loop_ok : forall f s have n, length s < f ->
@@ -382,7 +383,7 @@ Section LexTotal.
     - destruct (decode (c :: t)) as [r sz] eqn:E.
       assert (Hl : length (skipn sz (c :: t)) < length (c :: t))
         by (apply (decode_skip_lt _ _ _ E); discriminate).
-      destruct (N.eqb r wildcardRune); apply IH; simpl in *; lia.
+      destruct (N.eqb r wildcardRune); apply IH; cbn [length] in *; lia.
   Qed.
 
   Lemma kw_terms_ok : forall s, exists k, kw_terms s = ROk k.
@@ -400,7 +401,7 @@ Section LexTotal.
     - destruct (decode (c :: t)) as [r sz] eqn:E.
       assert (Hl : length (skipn sz (c :: t)) < length (c :: t))
         by (apply (decode_skip_lt _ _ _ E); discriminate).
-      split_ifs; apply IH; simpl in *; lia.
+      split_ifs; apply IH; cbn [length] in *; lia.
   Qed.
 
   Lemma text_lits_ok : forall s, exists k, text_lits is_letter is_number s = ROk k.
